@@ -706,7 +706,14 @@ fn oracle_c12(t: &LspTrace, h: &History, stats: &mut Stats) -> Vec<Violation> {
                     if has_error && has_result && !r["result"].is_null() {
                         out.push(viol("C12", format!("C12/result-and-error/method={m}"), format!("the response to {} carries both a result and an error: {}", short(&step.sent), short(r))));
                     }
-                    if step.label == "unknownRequest" && !has_error {
+                    // only for names that are no request of the protocol at all (made-up methods, names of
+                    // notifications): a real protocol request (hover, completion, …/full/delta, …) is one
+                    // a server may come to implement, and then a result is the right answer
+                    let never_a_request = matches!(
+                        m.as_str(),
+                        "$/unknown" | "shutdown/now" | "textDocument/semanticTokens" | "textDocument/didOpen" | "textDocument/didChange" | "textDocument/didClose" | "initialized" | "exit" | "$/cancelRequest"
+                    );
+                    if step.label == "unknownRequest" && never_a_request && !has_error {
                         out.push(viol("C12", format!("C12/unimplemented-method-without-error/method={m}"), format!("{} is not implemented by this server but was answered with {}", short(&step.sent), short(r))));
                     }
                     if (m == "initialize" || m == "shutdown") && has_error {
